@@ -86,13 +86,14 @@ def bundle(lib):
 
 
 def front_end(src, cfg, lib=None):
-    """accept / reject by the real compiler front end"""
+    """accept / reject by the real compiler front end alone (`annotated_ast_dict` runs the analyser but no code generator;
+    note that `abi` does run the legacy code generator, whatever the pipeline setting)"""
     from vyper.compiler import compile_code
     from vyper.exceptions import VyperException
     with warnings.catch_warnings():
         warnings.simplefilter("ignore")
         try:
-            compile_code(src, output_formats=["abi"], settings=cfg.settings(), input_bundle=bundle(lib))
+            compile_code(src, output_formats=["annotated_ast_dict"], settings=cfg.settings(), input_bundle=bundle(lib))
             return True, None
         except VyperException as e:
             return False, type(e).__name__
@@ -283,6 +284,7 @@ def run(ctx):
     rnd = ctx.rng("gen")
     gen = G.Gen(rnd)
     front = Config(False, "gas", "cancun")
+    front_venom = Config(True, "gas", "cancun")
     dyn_cfgs = [Config(False, "gas", "cancun"), Config(True, "gas", "cancun")]
     if ctx.tier == "thorough":
         dyn_cfgs += [Config(False, "none", "cancun"), Config(True, "O3", "cancun"), Config(True, "none", "cancun")]
@@ -318,7 +320,9 @@ def run(ctx):
     mism = []
     for (rule, where, prog), vm in zip(cases, verdict_model):
         src, lib = G.v_prog(prog, tgt_lit)
+        full_src = src if lib is None else src + "\n# ---- lib1.vy ----\n" + lib
         acc, why = front_end(src, front, lib)
+        accepting_cfgs = dyn_cfgs
         by_rule.setdefault(rule, [0, 0])
         by_rule[rule][0 if acc else 1] += 1
         if why and why.startswith("CRASH"):
@@ -327,14 +331,13 @@ def run(ctx):
                 nfail += 1
                 ctx.violation("failing-input", f"rule-breaking program ({rule}) is not rejected with a user-facing diagnostic: "
                               f"the compiler panics with {why[6:]}",
-                              {"source": full_src, "rule": rule, "where": where, "exception": why[6:], "stage": "compile_code(output_formats=['abi'])",
+                              {"source": full_src, "rule": rule, "where": where, "exception": why[6:], "stage": "compile_code(output_formats=['annotated_ast_dict'])",
                                "expected": "a VyperException subclass (user-facing compile error)"}, key=f"c11:panic:{rule}:{why[6:]}")
             else:
                 mism.append({"rule": rule, "where": where, "what": "front end crashed on a valid-set program", "error": why, "source": full_src})
-        full_src = src if lib is None else src + "\n# ---- lib1.vy ----\n" + lib
         if acc:
             late = []
-            for cfg in dyn_cfgs:
+            for cfg in accepting_cfgs:
                 n, f, note = dynamic_check(ctx, prog, src, cfg, ext_code, rule, where, lib)
                 if note and note.startswith("codegen:"):
                     late.append((cfg.name, note.split(":")[1]))
@@ -355,12 +358,12 @@ def run(ctx):
             late = [x for x in late if x[1] != "StaticAssertionException"]
             if late:
                 stats["rejected_in_codegen"] = stats.get("rejected_in_codegen", 0) + 1
-                if len(late) != len(dyn_cfgs):
+                if len(late) != len(accepting_cfgs):
                     if rule in CODEGEN_CHECKED:
                         nfail += 1
                         ctx.violation("failing-input", codegen_msg(rule, where, prog),
                                       {"source": src, "lib1.vy": lib, "rule": rule, "where": where, "rejected_by": late,
-                                       "accepted_by": [c.name for c in dyn_cfgs if c.name not in [x[0] for x in late]],
+                                       "accepted_by": [c.name for c in accepting_cfgs if c.name not in [x[0] for x in late]],
                                        "how": "vyper.compiler.compile_code(source, output_formats=['bytecode'], settings=<config>, input_bundle={lib1.vy})",
                                        "expected": "StateAccessViolation under every configuration"}, key=codegen_key(rule, where, prog))
                     else:
@@ -383,7 +386,13 @@ def run(ctx):
                                "how": "vyper.compiler.compile_code(source, output_formats=['bytecode'], settings=<config>, input_bundle={lib1.vy})",
                                "expected": "StateAccessViolation (\"Cannot ... from a constant function\")"}, key=codegen_key(rule, where, prog))
                 continue
-            mism.append({"rule": rule, "where": where, "what": "compiler accepts a program that `check` rejects (dynamic test found no misbehaviour)", "source": full_src})
+            # the property lists these rules explicitly ("... are rejected at compile time"): an accepted rule-breaking program
+            # is a failing input of that oracle even when no run-time misbehaviour can be shown
+            nfail += 1
+            ctx.violation("failing-input", f"rule-breaking program ({rule}) is accepted by the compiler (all pipelines); `check` rejects it",
+                          {"source": src, "lib1.vy": lib, "rule": rule, "where": where, "accepted_by": [c.name for c in accepting_cfgs],
+                           "how": "vyper.compiler.compile_code(source, output_formats=['bytecode'], settings=<config>, input_bundle={lib1.vy})",
+                           "expected": "a user-facing compile error"}, key=f"c11:accepted:{rule}")
         else:
             stats["compiler_stricter"] += 1
             if rule == "valid":
